@@ -582,8 +582,12 @@ def main(argv=None):
             'wall_s': round(wall, 2),
             'violations': sum(1 for l in lines_out if l.startswith('VIOLATION')),
         }
-        os.makedirs(os.path.join(VERIF, 'evidence'), exist_ok=True)
-        with open(os.path.join(VERIF, 'evidence', f'{prop_id}.json'), 'w', encoding='utf-8') as f:
+        # evidence/<id>.json describes runs against /repo only; a development run against another tree (PYCEL_REPO)
+        # must not overwrite it
+        ev_dir = os.path.join(VERIF, 'evidence') if os.path.realpath(REPO) == '/repo' else \
+            os.path.join(VERIF, 'replays', '_scratch_evidence')
+        os.makedirs(ev_dir, exist_ok=True)
+        with open(os.path.join(ev_dir, f'{prop_id}.json'), 'w', encoding='utf-8') as f:
             json.dump(evidence, f, indent=1, sort_keys=True, ensure_ascii=False)
     for l in lines_out:
         print(l)
